@@ -297,3 +297,11 @@ Proof.
               sighash_segwit verify_input descends Mainnet ex_p0 b (ex_canonical sec_ok) eq_refl E) as [o H].
   exists o. auto.
 Qed.
+
+(* The constants written in the model are the constants of the SOURCE: coq/Generated/SrcConsts.v is regenerated
+   from /repo/buidl/*.py by harness/gen_coq_consts.py on every run; the statements are spelled out in
+   Proofs/ConstsTie.v (psbt_magic_is_source_stmt). *)
+From V Require Proofs.ConstsTie.
+Theorem C10_constants_match_source : ConstsTie.psbt_magic_is_source_stmt.
+Proof. exact ConstsTie.psbt_magic_is_source. Qed.
+Print Assumptions C10_constants_match_source.
